@@ -1146,7 +1146,7 @@ Proof.
   - inversion H; subst. exact Wm.
   - inversion W as [|? ? Wo Wr]; subst. cbn [fold_left pair_step] in H.
     destruct (merge_pair sm om fs fo m o) as [m'|c] eqn:E.
-    + apply (IH m' r); [eapply merge_pair_wf; eassumption|exact Wr|exact H].
+    + apply (IH m' r); [exact (merge_pair_wf sm om fs fo m o m' Wm Wo E)|exact Wr|exact H].
     + rewrite fold_err in H. discriminate.
 Qed.
 
